@@ -476,6 +476,19 @@ struct FnVisitor<'c> {
 	closure_depth: usize,
 	/// L20 iter_mut: per enclosing loop, the write-back text to put before a `continue` (None: loop without write-back)
 	writeback: Vec<Option<String>>,
+	/// I1: free functions of this source file that the unit neither extracts nor defines (see Helper)
+	helpers: BTreeMap<String, Helper>,
+}
+
+/// I1: a call `f(a1, .., an)` to a free function `f` of the same source file that is neither extracted by the unit nor defined in
+/// its prelude / spec text (on the unchanged tree there is none: the unit would not compile) is emitted as the block
+/// `({ let p1: T1 = a1; ..; let pn: Tn = an; BODY })` with BODY the function's body verbatim — only for functions without generics,
+/// with plain `name: Type` parameters and a body that contains neither `return` nor `?` (their meaning would change inside the
+/// caller). A refactoring that merely moves code into such a helper is then verified as if the code were still in place.
+#[derive(Clone, Debug)]
+struct Helper {
+	params: Vec<(String, String)>,
+	body: (usize, usize),
 }
 
 impl<'c> FnVisitor<'c> {
@@ -1084,6 +1097,31 @@ impl<'ast, 'c> Visit<'ast> for FnVisitor<'c> {
 		syn::visit::visit_expr_loop(self, l);
 		self.writeback.pop();
 	}
+	fn visit_expr_call(&mut self, c: &'ast syn::ExprCall) {
+		if let syn::Expr::Path(p) = &*c.func {
+			if p.qself.is_none() && p.path.segments.len() == 1 && p.path.segments[0].arguments.is_empty() {
+				let name = p.path.segments[0].ident.to_string();
+				if let Some(h) = self.helpers.get(&name).cloned() {
+					if h.params.len() == c.args.len() {
+						let (ws, we) = br(c.span());
+						let mut parts = vec![Part::Text("({ ".to_string())];
+						for ((pn, pt), a) in h.params.iter().zip(c.args.iter()) {
+							let (as_, ae) = br(a.span());
+							parts.push(Part::Text(format!("let {}: {} = ", pn, pt)));
+							parts.push(Part::Src(as_, ae));
+							parts.push(Part::Text("; ".to_string()));
+						}
+						parts.push(Part::Src(h.body.0, h.body.1));
+						parts.push(Part::Text(" })".to_string()));
+						self.push(ws, we, parts, "I1");
+						for a in c.args.iter() { syn::visit::visit_expr(self, a); }
+						return;
+					}
+				}
+			}
+		}
+		syn::visit::visit_expr_call(self, c);
+	}
 	fn visit_expr_try(&mut self, t: &'ast syn::ExprTry) {
 		self.tried.push(br(t.expr.span()));
 		let (ws, we) = br(t.span());
@@ -1438,6 +1476,8 @@ struct Ctx<'a> {
 	fn_params: Vec<(String, Vec<String>)>,
 	cur_file: String,
 	cur_item: String,
+	/// I1: per source file, the inlinable helper functions
+	helpers: BTreeMap<String, BTreeMap<String, Helper>>,
 }
 
 fn count_tokens(s: &str) -> usize {
@@ -1558,6 +1598,7 @@ fn fn_edits(
 		},
 		closure_depth: 0,
 		writeback: vec![],
+		helpers: ctx.helpers.get(&ctx.cur_file).cloned().unwrap_or_default(),
 	};
 	for a in attrs {
 		v.visit_attribute(a);
@@ -1920,6 +1961,7 @@ fn main() {
 		fn_params: vec![],
 		cur_file: String::new(),
 		cur_item: String::new(),
+		helpers: BTreeMap::new(),
 	};
 	if !raw { ctx.out.buf.push_str(&format!(
 		"// GENERATED by /verif/tools/vx from {} (mode={}{}) — do not edit\n#![allow(unused)]\nuse vstd::prelude::*;\nuse std::collections::HashMap;\nuse std::collections::HashSet;\nuse std::marker::PhantomData;\nverus! {{\n",
@@ -1961,6 +2003,49 @@ fn main() {
 			let f = syn::parse_file(&s).unwrap_or_else(|e| die(&format!("{}: parse error {}", fp, e)));
 			sources.insert(it.file.clone(), (s, f));
 			ctx.files.push(it.file.clone());
+		}
+	}
+	// I1: candidate helpers = free fns of the source files that the unit does not extract and whose name is defined nowhere in the
+	// unit's own text (prelude, spec, tail)
+	{
+		let mut defined: std::collections::BTreeSet<String> = std::collections::BTreeSet::new();
+		let fn_re = Regex::new(r"\bfn\s+([A-Za-z_][A-Za-z0-9_]*)").unwrap();
+		for c in fn_re.captures_iter(&ctx.out.buf) { defined.insert(c[1].to_string()); }
+		for c in fn_re.captures_iter(&cfg.tail) { defined.insert(c[1].to_string()); }
+		for it in &cfg.item {
+			let p = it.path.trim();
+			let tail = p.rsplit("::").next().unwrap_or(p).trim();
+			if let Some(rest) = tail.strip_prefix("fn ") { for n in rest.split(',') { defined.insert(n.trim().to_string()); } }
+			if let Some(f) = &it.as_free { defined.insert(f.clone()); }
+		}
+		for (fname, (src, file)) in sources.iter() {
+			let mut hs: BTreeMap<String, Helper> = BTreeMap::new();
+			for item in &file.items {
+				if let syn::Item::Fn(f) = item {
+					let name = f.sig.ident.to_string();
+					if defined.contains(&name) || !f.sig.generics.params.is_empty() || f.sig.asyncness.is_some() { continue; }
+					let mut params = vec![];
+					let mut ok = true;
+					for inp in &f.sig.inputs {
+						match inp {
+							syn::FnArg::Typed(pt) => match &*pt.pat {
+								syn::Pat::Ident(pi) if pi.by_ref.is_none() && pi.subpat.is_none() => {
+									let (ts, te) = br(pt.ty.span());
+									params.push((format!("{}{}", if pi.mutability.is_some() { "mut " } else { "" }, pi.ident), src[ts..te].to_string()));
+								}
+								_ => ok = false,
+							},
+							_ => ok = false,
+						}
+					}
+					let (bs, be) = br(f.block.span());
+					let body = &src[bs..be];
+					let word = Regex::new(r"\breturn\b").unwrap();
+					if !ok || word.is_match(body) || body.contains('?') { continue; }
+					hs.insert(name, Helper { params, body: (bs, be) });
+				}
+			}
+			ctx.helpers.insert(fname.clone(), hs);
 		}
 	}
 	for it in &cfg.item {
